@@ -9,14 +9,18 @@
 //	scale-many    d different developers (name i, e-mail i), each seen twice in mixed case; d straddles 2^8, 2^12,
 //	              2^16 and AuthorMissing = 2^18-2 (thorough): an index equal to AuthorMissing is a legitimate
 //	              developer there.  From 2^16 on the case carries (nomodel 1): the association lists of the model are
-//	              quadratic, the driver judges such cases with its own hash-based statement of the property.
+//	              quadratic, the driver judges such cases with its own hash-based statement of the property; from 2^17 on
+//	              the harness judges (judgeHere) and the trace carries (gen many d) and the verdict.
 //	scale-mailmap a .mailmap of m lines (10^2, 10^3, thorough 10^4) in groups "Name_g <p_g@x> <c_g_j@x>" plus
 //	              e-mail-only groups, commits from the mapped and the canonical addresses and from strangers
 package main
 
 import (
 	"fmt"
+	"sort"
 	"strings"
+
+	"gopkg.in/src-d/hercules.v10/verifapi/c16"
 
 	. "verifharness/lib"
 )
@@ -86,7 +90,7 @@ func scaleChain(c *Config, n int, nomodel bool) {
 	emitScale(c, "scale-chain", &gcase{sigs: sigs}, nomodel)
 }
 
-func scaleMany(c *Config, d int, exact bool) {
+func manySigs(d int) []sig {
 	sigs := make([]sig, 0, 2*d)
 	for i := 0; i < d; i++ {
 		sigs = append(sigs, sig{fmt.Sprintf("dev%d", i), fmt.Sprintf("D%d@x", i)})
@@ -94,7 +98,90 @@ func scaleMany(c *Config, d int, exact bool) {
 	for i := d - 1; i >= 0; i-- {
 		sigs = append(sigs, sig{fmt.Sprintf("DEV%d", i), fmt.Sprintf("d%d@X", i)})
 	}
-	emitScale(c, "scale-many", &gcase{exact: exact, sigs: sigs}, d >= 1<<14)
+	return sigs
+}
+
+func scaleMany(c *Config, d int, exact bool) {
+	g := &gcase{exact: exact, sigs: manySigs(d)}
+	if d < 1<<17 {
+		emitScale(c, "scale-many", g, d >= 1<<14)
+		return
+	}
+	// 2^17 developers and more: the dictionaries would make a trace line of 10^7 tokens; the property is judged here
+	// and the trace carries the verdict
+	c.Emit(T("kind", A("scale-many")), T("nt", B(true)), T("exact", B(exact)), T("gen", A("many"), I(d)), T("obs", judgeHere(g)))
+}
+
+// judgeHere states the first half of the property on the outputs of one execution with Go maps: every author in
+// range, same lower-cased e-mail (signature) -> same developer, the keys of PeopleDict are exactly the lower-cased
+// names and e-mails (signatures) in use, every description is the set of keys of its developer (names and e-mails of
+// these cases are disjoint and bar-free).
+func judgeHere(g *gcase) Sx {
+	verdict := T("verdict", A("ok"))
+	bad := func(what string, i int) { verdict = T("verdict", A("fail"), A(what), I(i)) }
+	_, p := Catch(func() {
+		d := &c16.Detector{ExactSignatures: g.exact}
+		if err := d.Initialize(nil); err != nil {
+			panic(err)
+		}
+		commits := commitsOf(g)
+		d.GeneratePeopleDict(commits)
+		n := len(d.ReversedPeopleDict)
+		seen := map[string]int{}
+		used := map[string]bool{}
+		for i, cm := range commits {
+			res, err := d.Consume(map[string]interface{}{c16.DependencyCommit: cm})
+			if err != nil {
+				panic(err)
+			}
+			a := res[c16.DependencyAuthor].(int)
+			if a < 0 || a >= n {
+				bad("total", i)
+				return
+			}
+			k := strings.ToLower(cm.Author.Email)
+			if g.exact {
+				k = strings.ToLower(cm.Author.String())
+				used[k] = true
+			} else {
+				used[k] = true
+				used[strings.ToLower(cm.Author.Name)] = true
+			}
+			if b, ok := seen[k]; ok && b != a {
+				bad("same-email", i)
+				return
+			}
+			seen[k] = a
+		}
+		if len(used) != len(d.PeopleDict) {
+			bad("description-keys", len(d.PeopleDict))
+			return
+		}
+		keys := make([][]string, n)
+		for k, v := range d.PeopleDict {
+			if !used[k] || v < 0 || v >= n {
+				bad("description-keys", v)
+				return
+			}
+			keys[v] = append(keys[v], k)
+		}
+		for v, desc := range d.ReversedPeopleDict {
+			parts := []string{desc}
+			if !g.exact {
+				parts = strings.Split(desc, "|")
+			}
+			sort.Strings(parts)
+			sort.Strings(keys[v])
+			if strings.Join(parts, "|") != strings.Join(keys[v], "|") {
+				bad("description", v)
+				return
+			}
+		}
+	})
+	if p {
+		return T("verdict", A("fail"), A("panic"), I(0))
+	}
+	return verdict
 }
 
 func scaleMailmap(c *Config, groups, perGroup, commits int) {
